@@ -448,3 +448,465 @@ def _leaves(exc: BaseException | None) -> list[BaseException]:
     from vkit.trace import leaves
 
     return leaves(exc)
+
+
+# =========================================================================== C09: task factories
+
+HANDLER_VERDICTS = {"true": True, "false": False, "none": None, "one": 1, "zero": 0}
+
+
+def gen_factory_program(rng: Any) -> dict[str, Any]:
+    cmds: list[Any] = []
+    tids = [0]
+    live: list[int] = []
+    will_crash = False
+
+    def fresh() -> int:
+        tids[0] += 1
+        return tids[0]
+
+    handler = rng.choice([None, "true", "true", "false", "none", "one", "zero"])
+    swallow = handler is not None and bool(HANDLER_VERDICTS[handler])
+    n = rng.randint(3, 14)
+    for _ in range(n):
+        r = rng.random()
+        if r < 0.45:
+            tid = fresh()
+            outcome = rng.choice(["return", "return", "return", "raise"])
+            if outcome == "raise" and not swallow:
+                if will_crash or rng.random() < 0.6:
+                    outcome = "return"
+                else:
+                    will_crash = True
+            spec = {"tid": tid, "via": rng.choice(["start_task", "start_task_soon"]), "from": rng.choice(["owner", "foreign", "foreign_sync", "task"]),
+                    "dur": rng.choice([0.125, 0.625, 1.125, 2.625, 5.125]), "outcome": outcome, "exc": rng.choice(["ValueError", "Custom", "Group"]),
+                    "task_status": rng.random() < 0.5, "name": rng.choice([None, f"task{tid}"])}
+            if spec["from"] == "foreign_sync":
+                spec["via"] = "start_task_soon"
+            if spec["from"] == "task":
+                # spawned by another spawned task, right when that one starts
+                spec["parent_spec"] = {"tid": fresh(), "via": "start_task_soon", "from": "owner", "dur": rng.choice([0.125, 1.125]), "outcome": "return",
+                                       "exc": "ValueError", "task_status": False, "name": None}
+            cmds.append(["spawn", spec])
+            live.append(tid)
+        elif r < 0.55 and live:
+            cmds.append(["cancel", rng.choice(live)])
+        elif r < 0.7 and live:
+            cmds.append(["wait", rng.choice(live)])
+        elif r < 0.9:
+            cmds.append(["sleep", rng.choice([0.5, 1, 2])])
+        else:
+            cmds.append(["yield", rng.randint(1, 3)])
+    return {"backend": rng.choice(["asyncio", "trio"]), "sched_seed": rng.randrange(1 << 30), "shuffle": rng.random() < 0.5, "nested": rng.random() < 0.5,
+            "handler": handler, "cmds": cmds, "spawn_after_close": rng.choice([None, "start_task_soon", "start_task"])}
+
+
+class FactoryRun:
+    def __init__(self, prog: dict[str, Any]) -> None:
+        self.prog = prog
+        self.trace = Trace()
+        self.t0 = 0.0
+        self.handles: dict[int, Any] = {}
+        self.handler_calls: list[Any] = []
+        self.raised: dict[int, BaseException] = {}
+        self.root_boundary: BaseException | None = None
+        self.crash: BaseException | None = None
+        self.owner: Any = None
+        self.factory: Any = None
+        self.handle_checks: list[dict[str, Any]] = []
+        self.model_live: set[int] = set()
+        self.after_close: dict[str, Any] = {}
+
+    def t(self) -> float:
+        return anyio.current_time() - self.t0
+
+    def log(self, kind: str, actor: Any, **kw: Any) -> None:
+        self.trace.log(kind, actor, vt=self.t(), **kw)
+
+    def make_body(self, spec: dict[str, Any], spawner_ctx_getter: Any) -> Any:
+        from asphalt.core import current_context, get_resources
+
+        run = self
+        tid = spec["tid"]
+
+        async def body(task_status: Any = None) -> None:
+            ctx = current_context()
+            par = ctx.parent
+            run.log("task-start", tid, parent_parent_is_owner=bool(par is not None and par.parent is run.owner),
+                    parent_is_spawner_ctx=bool(par is spawner_ctx_getter()), parent_is_owner=bool(par is run.owner),
+                    visible=sorted(get_resources(ST0)))
+            if task_status is not None:
+                task_status.started(("sv", tid))
+            child = spec.get("child_spec")
+            if child is not None:
+                await run.spawn(child, "task", ctx)
+            try:
+                await anyio.sleep(spec["dur"])
+            except BaseException as e:
+                run.log("task-end", tid, how="cancelled" if is_cancellation(e) else describe_exc(e))
+                raise
+            if spec["outcome"] == "raise":
+                exc = make_exc(spec["exc"], f"task{tid}")
+                run.raised[tid] = exc
+                run.log("task-end", tid, how="raise")
+                raise exc
+            run.log("task-end", tid, how="return")
+
+        if spec["task_status"] and spec["via"] == "start_task":
+            async def func(*, task_status: Any) -> None:
+                await body(task_status)
+        else:
+            async def func() -> None:  # type: ignore[misc]
+                await body()
+        return func
+
+    async def spawn(self, spec: dict[str, Any], where: str, spawner_ctx: Any) -> None:
+        func = self.make_body(spec, lambda: spawner_ctx)
+        tid = spec["tid"]
+        self.log("spawn-call", tid, via=spec["via"], where=where)
+        try:
+            if spec["via"] == "start_task":
+                h = await self.factory.start_task(func, spec["name"])
+            else:
+                h = self.factory.start_task_soon(func, spec["name"])
+        except BaseException as e:
+            self.log("spawn-failed", tid, exc=describe_exc(e))
+            raise
+        self.handles[tid] = h
+        self.model_live.add(tid)
+        sv = getattr(h, "start_value", "<unset>") if spec["via"] == "start_task" else "<n/a>"
+        self.log("spawned", tid, start_value=repr(sv), name=h.name)
+
+    def check_handles(self, when: str) -> None:
+        got = self.factory.all_task_handles()
+        known = {id(h): tid for tid, h in self.handles.items()}
+        got_tids = sorted(known.get(id(h), f"<unknown {h!r}>") for h in got)
+        self.log("handles", "driver", when=when, got=got_tids)
+
+    async def main(self) -> None:
+        from asphalt.core import Context
+
+        prog = self.prog
+        run = self
+        self.t0 = anyio.current_time()
+        handler = None
+        if prog["handler"] is not None:
+            verdict = HANDLER_VERDICTS[prog["handler"]]
+
+            def handler(exc: Exception) -> Any:
+                run.handler_calls.append(exc)
+                run.log("handler", "handler", exc=describe_exc(exc))
+                return verdict
+
+        foreign_send, foreign_recv = anyio.create_memory_object_stream[Any](0)
+        foreign_ctx: list[Any] = []
+
+        async def foreign_actor() -> None:
+            # an unrelated context (own root) entered in another task, with a resource of its own
+            async with Context() as fctx:
+                fctx.add_resource(ST0(), "foreign")
+                foreign_ctx.append(fctx)
+                async for spec, done in foreign_recv:
+                    try:
+                        if spec["from"] == "foreign_sync":
+                            def sync_callback() -> None:
+                                func = run.make_body(spec, lambda: fctx)
+                                run.log("spawn-call", spec["tid"], via="start_task_soon", where="sync-callback")
+                                h = run.factory.start_task_soon(func, spec["name"])
+                                run.handles[spec["tid"]] = h
+                                run.model_live.add(spec["tid"])
+                                run.log("spawned", spec["tid"], start_value="'<n/a>'", name=h.name)
+
+                            sync_callback()
+                        else:
+                            await run.spawn(spec, "foreign", fctx)
+                    finally:
+                        done.set()
+
+        async def owner_block(ctx: Any) -> None:
+            self.owner = ctx
+            ctx.add_resource(ST0(), "before")
+            self.factory = await ctx.start_background_task_factory(exception_handler=handler)
+            ctx.add_resource(ST0(), "after")
+            self.check_handles("factory started")
+            for cmd in prog["cmds"]:
+                kind = cmd[0]
+                if kind == "spawn":
+                    spec = cmd[1]
+                    if spec["from"] == "task":
+                        parent = dict(spec["parent_spec"])
+                        child = {k: v for k, v in spec.items() if k != "parent_spec"}
+                        parent["child_spec"] = child
+                        await self.spawn(parent, "owner", ctx)
+                        # let the parent task run so that it spawns the child
+                        for _ in range(6):
+                            await checkpoint()
+                    elif spec["from"] == "owner":
+                        await self.spawn(spec, "owner", ctx)
+                    else:
+                        done = anyio.Event()
+                        await foreign_send.send((spec, done))
+                        await done.wait()
+                elif kind == "cancel":
+                    tid = cmd[1]
+                    if tid in self.handles:
+                        self.log("cancel-call", tid)
+                        self.handles[tid].cancel()
+                        for _ in range(6):
+                            await checkpoint()
+                elif kind == "wait":
+                    tid = cmd[1]
+                    if tid in self.handles:
+                        async def waiter(tid: int = tid) -> None:
+                            run.log("wait-call", tid)
+                            await run.handles[tid].wait_finished()
+                            run.log("wait-return", tid)
+
+                        self.waiters.start_soon(waiter)
+                elif kind == "sleep":
+                    await anyio.sleep(cmd[1])
+                else:
+                    for _ in range(cmd[1]):
+                        await checkpoint()
+                self.check_handles(f"after {cmd[0]}")
+            self.log("block-end", "owner")
+
+        try:
+            async with create_task_group() as outer:
+                self.waiters = outer
+                outer.start_soon(foreign_actor)
+                while not foreign_ctx:
+                    await checkpoint()
+                try:
+                    async with Context() as root:
+                        if prog["nested"]:
+                            async with Context() as ctx:
+                                await owner_block(ctx)
+                            self.log("left", "owner")
+                            self.check_handles("after owner left")
+                        else:
+                            await owner_block(root)
+                except BaseException as e:
+                    self.root_boundary = e
+                if not prog["nested"]:
+                    self.log("left", "owner")
+                    self.check_handles("after owner left")
+                self.log("root-left", "root", exc=describe_exc(self.root_boundary))
+                # spawning after the factory has finished must fail and must not leave a handle behind
+                if prog["spawn_after_close"] and self.root_boundary is None:
+                    async def late() -> None:
+                        run.log("late-task-ran", "late")
+
+                    try:
+                        if prog["spawn_after_close"] == "start_task":
+                            await self.factory.start_task(late)
+                        else:
+                            self.factory.start_task_soon(late)
+                        self.after_close["outcome"] = "returned"
+                    except BaseException as e:
+                        self.after_close["outcome"] = describe_exc(e)
+                    await anyio.sleep(1)
+                    self.check_handles("after spawn attempt on a finished factory")
+                await anyio.sleep(50)
+                foreign_send.close()
+                outer.cancel_scope.cancel()
+        except BaseException as e:
+            self.crash = e
+        self.log("end", "harness")
+
+
+def execute_factory(prog: dict[str, Any]) -> FactoryRun:
+    run = FactoryRun(prog)
+    try:
+        run_virtual(prog["backend"], run.main, sched_seed=prog["sched_seed"], shuffle=prog["shuffle"])
+    except BaseException as e:
+        if isinstance(e, (KeyboardInterrupt, SystemExit)) and "injected" not in str(e):
+            raise
+        run.crash = e
+        run.trace.log("crash", "harness", exc=describe_exc(e))
+    return run
+
+
+def check_factory(run: FactoryRun) -> tuple[list[dict[str, Any]], dict[str, int]]:
+    prog = run.prog
+    tr = run.trace
+    ev = tr.events
+    V: list[dict[str, Any]] = []
+    c: dict[str, int] = {}
+
+    def inc(k: str, n: int = 1) -> None:
+        c[k] = c.get(k, 0) + n
+
+    def bad(key: str, msg: str) -> None:
+        if len(V) < 6 and not any(v["key"] == key for v in V):
+            V.append({"key": key, "msg": msg, "witness": {"program": prog, "trace": tr.compact(140)}})
+
+    if run.crash is not None:
+        bad("factory-deadlock" if isinstance(run.crash, VirtualDeadlock) else "factory-crash", f"the program did not finish: {describe_exc(run.crash)}")
+        return V, c
+    specs: dict[int, Any] = {}
+    for cmd in prog["cmds"]:
+        if cmd[0] == "spawn":
+            specs[cmd[1]["tid"]] = cmd[1]
+            if cmd[1]["from"] == "task":
+                specs[cmd[1]["parent_spec"]["tid"]] = cmd[1]["parent_spec"]
+    verdict = HANDLER_VERDICTS[prog["handler"]] if prog["handler"] is not None else None
+    swallow = prog["handler"] is not None and bool(verdict)
+    start = {e["actor"]: e for e in ev if e["kind"] == "task-start"}
+    end = {e["actor"]: e for e in ev if e["kind"] == "task-end"}
+    spawned = {e["actor"]: e for e in ev if e["kind"] == "spawned"}
+    spawn_call = {e["actor"]: e for e in ev if e["kind"] == "spawn-call"}
+    # ---- which failure (if any) takes the application down
+    fatal = [tid for tid, e in end.items() if e["how"] == "raise" and not swallow]
+    fatal_seq = min((end[tid]["seq"] for tid in fatal), default=None)
+    # ---- context of every task
+    for tid, e in start.items():
+        inc("tasks_started")
+        where = spawn_call[tid]["where"] if tid in spawn_call else "?"
+        inc(f"spawned_from_{where}")
+        if not e["parent_parent_is_owner"] or e["parent_is_owner"]:
+            bad("factory-task-context", f"task {tid}: its context's parent is not the factory's own context (a child of the owning context)")
+        if e["parent_is_spawner_ctx"]:
+            bad("factory-task-context", f"task {tid} (spawned from {where}) runs in a child of the spawner's context")
+        if e["visible"] != ["before"]:
+            bad("factory-task-snapshot", f"task {tid} (spawned from {where}) sees resources {e['visible']}; the factory's context is a snapshot taken when the "
+                                         f"factory was started: ['before']")
+    # ---- start values / names
+    for tid, e in spawned.items():
+        spec = specs.get(tid)
+        if spec is None:
+            continue
+        if spec["via"] == "start_task":
+            want = repr(("sv", tid)) if spec["task_status"] else repr(None)
+            if e["start_value"] != want:
+                bad("factory-start-value", f"start_task returned a handle with start_value {e['start_value']}, expected {want}")
+        if spec["name"] is not None and e["name"] != spec["name"]:
+            bad("factory-handle-name", f"handle name {e['name']!r}, expected {spec['name']!r}")
+    # ---- handle set at every driver step
+    live: set[int] = set()
+    cursor = 0
+    checks = [e for e in ev if e["kind"] == "handles"]
+    for chk in checks:
+        if fatal_seq is not None and chk["seq"] > fatal_seq:
+            break
+        for e in ev[cursor:chk["seq"]]:
+            if e["kind"] == "spawned":
+                live.add(e["actor"])
+            elif e["kind"] == "task-end":
+                live.discard(e["actor"])
+        cursor = chk["seq"]
+        # tasks whose end is recorded at the very instant of the check are ambiguous only if no scheduling round lay between:
+        # durations are on a .125 grid and the driver's on a .5 grid, so that never happens
+        inc("handle_set_checks")
+        never_ran = {t for t in live if t not in start and t in spawned}
+        got = [x for x in chk["got"]]
+        if sorted(got, key=str) != sorted(live, key=str):
+            extra = [x for x in got if x not in live]
+            missing = [x for x in live if x not in got]
+            key = "factory-handles-stale" if extra else "factory-handles-missing"
+            if chk["when"] == "after spawn attempt on a finished factory":
+                key = "factory-handles-after-failed-spawn"
+            bad(key, f"all_task_handles() {chk['when']} at virtual time {chk['vt']}: {got}; spawned and not finished: {sorted(live)} "
+                     f"(unexpected {extra}, missing {missing})")
+            break
+        if len(live) >= 2:
+            inc("handle_set_checks_with_2plus_live")
+    # ---- ends: every task ends at spawn + duration unless cancelled through its handle; cancel ends only that task
+    cancels: dict[Any, Any] = {}
+    for e in ev:
+        if e["kind"] == "cancel-call":
+            cancels.setdefault(e["actor"], e)  # the first cancel() of a task is the one that ends it
+    for tid, s in start.items():
+        spec = specs.get(tid)
+        if spec is None:
+            continue
+        e = end.get(tid)
+        if fatal_seq is not None and (e is None or e["seq"] >= fatal_seq):
+            continue
+        if e is None:
+            bad("factory-task-lost", f"task {tid} started but never ended although the owning context was left")
+            continue
+        if tid in cancels and cancels[tid]["seq"] < e["seq"] and cancels[tid]["vt"] < s["vt"] + spec["dur"]:
+            inc("tasks_cancelled_through_handle")
+            if e["how"] != "cancelled":
+                bad("factory-cancel", f"task {tid} was cancelled through its handle but ended with {e['how']}")
+            elif abs(e["vt"] - cancels[tid]["vt"]) > 1e-9:
+                bad("factory-cancel", f"task {tid} cancelled at {cancels[tid]['vt']} ended at {e['vt']}")
+        else:
+            if e["how"] == "cancelled":
+                others = [t for t in cancels if t != tid]
+                why = "the teardown of the owning context" if not others else f"cancel() of another task ({others}) or the teardown"
+                bad("factory-task-cancelled", f"task {tid} received a cancellation it did not ask for (through {why})")
+            elif abs(e["vt"] - (s["vt"] + spec["dur"])) > 1e-9:
+                bad("factory-task-time", f"task {tid} ended at {e['vt']}, expected {s['vt'] + spec['dur']}")
+            inc("tasks_ran_to_completion")
+    # ---- wait_finished
+    for e in ev:
+        if e["kind"] == "wait-return":
+            tid = e["actor"]
+            inc("wait_finished_returns")
+            te = end.get(tid)
+            if te is None or te["seq"] > e["seq"]:
+                if tid in start or tid not in cancels:
+                    bad("factory-wait-early", f"wait_finished() of task {tid} returned before the task's last event")
+            else:
+                call = next((x for x in reversed(ev[:e["seq"]]) if x["kind"] == "wait-call" and x["actor"] == tid), None)
+                want = max(te["vt"], call["vt"] if call else 0.0)
+                if abs(want - e["vt"]) > 1e-9 and (fatal_seq is None or e["seq"] < fatal_seq):
+                    bad("factory-wait-late", f"wait_finished() of task {tid} (called at {call['vt'] if call else '?'}) returned at {e['vt']}, the task ended at {te['vt']}")
+    if fatal_seq is None:
+        returned = {(e["actor"]) for e in ev if e["kind"] == "wait-return"}
+        for e in ev:
+            if e["kind"] == "wait-call" and e["actor"] not in returned:
+                bad("factory-wait-never-returned", f"wait_finished() of task {e['actor']} (called at {e['vt']}) had not returned 50 virtual seconds after the "
+                                                   f"owning context was left")
+    # ---- exception handler
+    raisers = [tid for tid, e in end.items() if e["how"] == "raise"]
+    for tid in raisers:
+        exc = run.raised[tid]
+        n = sum(1 for x in run.handler_calls if x is exc)
+        inc("exceptions_escaping_tasks")
+        if prog["handler"] is not None and n != 1:
+            bad("factory-handler-count", f"the exception handler was called {n} times for the exception raised by task {tid}")
+        if swallow:
+            inc("exceptions_swallowed")
+            if contains_same(run.root_boundary, exc):
+                bad("factory-handler-verdict", f"handler returned {verdict!r} (truthy) but the exception of task {tid} propagated out of the root context")
+        else:
+            inc("exceptions_propagated")
+            if not contains_same(run.root_boundary, exc):
+                bad("factory-exception-vanished", f"task {tid} raised {describe_exc(exc)} (handler verdict {verdict!r}) but the root context raised "
+                                                  f"{describe_exc(run.root_boundary)}")
+    stray_handler = [x for x in run.handler_calls if not any(x is run.raised[t] for t in run.raised)]
+    if stray_handler:
+        bad("factory-handler-count", f"the exception handler was called with {describe_exc(stray_handler[0])}, which no task raised (cancellations must not reach it)")
+    if not fatal and run.root_boundary is not None:
+        bad("factory-unexpected-exception", f"the root context raised {describe_exc(run.root_boundary)} although every escaping exception was handled")
+    # ---- teardown waits for running tasks
+    left = next((e for e in ev if e["kind"] == "left"), None)
+    block_end = next((e for e in ev if e["kind"] == "block-end"), None)
+    if not fatal and left is not None and block_end is not None:
+        ends_after = [e["vt"] for e in end.values() if e["seq"] > block_end["seq"]]
+        # tasks spawned with start_task_soon right before the end may not even have started: they still run to completion
+        exp_left = max([block_end["vt"]] + ends_after)
+        running_at_end = [tid for tid, s in start.items() if tid in end and end[tid]["seq"] > block_end["seq"]]
+        if running_at_end:
+            inc("owner_left_with_tasks_running")
+        late = [e for e in ev if e["seq"] > left["seq"] and e["kind"] in ("task-start", "task-end")]
+        if late:
+            bad("factory-task-after-exit", f"task {late[0]['actor']} produced {late[0]['kind']} after the owning context had been left")
+        if abs(left["vt"] - exp_left) > 1e-9:
+            bad("factory-teardown-time", f"the owning context was left at {left['vt']}, expected {exp_left} (when its last task ended)")
+        unfinished = [tid for tid in spawned if tid not in end and tid in specs]
+        if unfinished:
+            bad("factory-task-lost", f"tasks {unfinished} were spawned but never ran to an end although the owning context was left")
+    if run.after_close:
+        inc("spawn_attempts_on_finished_factory")
+        if run.after_close.get("outcome") == "returned":
+            if any(e["kind"] == "late-task-ran" for e in ev):
+                pass  # the statement does not forbid a late spawn to work; the handle check above decides
+    if prog["nested"]:
+        inc("nested_owner")
+    else:
+        inc("root_owner")
+    return V, c
